@@ -444,3 +444,186 @@ def c04(tier):
 
 
 PLANS.update({"C12": c12, "C09": c09, "C04": c04})
+
+
+# ------------------------------------------------------------------------------------------
+def simple_cfg(name, constants, invariants):
+    path = os.path.join(common.rundir(), name + ".cfg")
+    with open(path, "w") as f:
+        f.write("CONSTANTS\n")
+        for k, v in constants.items():
+            f.write("  %s = %s\n" % (k, v))
+        f.write("INIT Init\nNEXT Next\nINVARIANTS " + " ".join(invariants) + "\nCHECK_DEADLOCK FALSE\n")
+    return path
+
+
+def c15(tier):
+    run = Run("C15", tier)
+    n = 800 if tier == "quick" else 50000
+    run.rule = ("model: for all rows of length <= L over {\", |, -, a, wide, 2-byte, <, space} the code's blanking "
+                "mechanism equals the reference and keeps every outside character in its display column (TLC); "
+                "code: pairs (a, b) where b = a with each quoted region, quotes included, replaced by spaces: TLC "
+                "checks the input relation and elements(a) = elements(b) + the quoted texts at the opening quote "
+                "(verbatim content); rows of arbitrary drawing content with 0..3 segments whose content ranges "
+                "over drawing, markup, multi-byte and double-width characters, on multi-row diagrams. "
+                "non-trivial = the base input has at least one quoted segment")
+    r = common.rng("C15")
+    cfg = simple_cfg("MC_C15", {"L": 5 if tier == "quick" else 7, "Alphabet": tla_set([34, 124, 45, 97, 19968, 233, 60, 32])},
+                     ["MechEqualsRef", "KeepsColumns"])
+    run.model("MC_Quote", cfg)
+    content_alpha = gen.ASCII_DRAW + "<>&';" + gen.LABELS[:8] + gen.WIDE + gen.LATIN + "   "
+    groups = []
+    for i in range(n):
+        h = r.randint(1, 4)
+        rows_a, rows_b = [], []
+        for _ in range(h):
+            a, b = "", ""
+            for _seg in range(r.randint(0, 3)):
+                pre = gen.random_grid(r, r.randint(0, 6), 1, gen.ASCII_DRAW.replace("\\", "") + "ab", r.choice([0.3, 0.8]))
+                content = "".join(r.choice(content_alpha) for _ in range(r.randint(0, 8))).replace("\\", "/")
+                wcells = sum(2 if c in gen.WIDE else 1 for c in content)
+                a += pre + '"' + content + '"'
+                b += pre + " " * (wcells + 2)
+            post = gen.random_grid(r, r.randint(0, 6), 1, gen.ASCII_DRAW.replace("\\", "") + "ab" + gen.WIDE[:2], 0.6)
+            rows_a.append(a + post)
+            rows_b.append(b + post)
+        ta, tb = "\n".join(rows_a), "\n".join(rows_b)
+        if "{" in ta or "}" in ta:
+            ta, tb = ta.replace("{", "(").replace("}", ")"), tb.replace("{", "(").replace("}", ")")
+        groups.append([({"input": ta}, None), ({"input": tb}, {"kind": "blank", "of": 1})])
+    rel_events(run, groups, "C15")
+    run.samples.append({"a": groups[1][0][0]["input"], "b": groups[1][1][0]["input"]})
+    run.validate(shard=1500)
+    run.assumptions = std_assumptions()
+    return run.finish()
+
+
+PAYLOADS = ["<script>alert(1)</script>", "</style><script>MK</script>", "<a href='x'>MK</a>", "<b onload=MK>",
+            "]]>MK", "<!--MK-->", "<?MK x?>", "&MK;", "&lt;MK", "\"MK\"", "'MK'", "</text><MK/>", "</svg><MK>",
+            "<![CDATA[MK]]>", "<!DOCTYPE MK>", "&#60;MK&#62;", "MK=\"1\"", "><MK"]
+
+
+def sink_cases(r, n, marker_prefix="mk"):
+    """(input text, channel, marker, expected text strings, expected style strings)"""
+    out = []
+    for i in range(n):
+        marker = "%s%04x%s" % (marker_prefix, r.randrange(1 << 16), r.choice("abcdefgh"))
+        pay = r.choice(PAYLOADS).replace("MK", marker)
+        if marker not in pay:
+            pay = pay + marker
+        chan = ["plain", "quoted", "tag", "legend_name", "legend_decl"][i % 5]
+        art = r.choice(["", gen.box(r.randint(2, 8), 1), gen.random_grid(r, 8, 2, "-|+/\\*o. ", 0.5), "o-->"])
+        exp_t, exp_s = [], []
+        if chan == "plain":
+            p = pay.replace('"', "'")          # an odd number of quotes would pair up with other cells
+            t = art + "\n" + p
+            exp_t = [w for w in p.split(" ") if marker in w][:1]
+        elif chan == "quoted":
+            p = pay.replace('"', "'").replace("\\", "/")
+            t = art + '\n "' + p + '" --'
+            exp_t = [p]
+        elif chan == "tag":
+            t = gen.box(len(pay) + 4, 1, "sharp", "{" + pay + "}")
+            exp_t = []
+        elif chan == "legend_name":
+            t = art + "\n# Legend:\n" + pay + " = {fill:red}\n"
+        else:
+            p = pay.replace("{", "(").replace("}", ")")
+            t = art + "\n# Legend:\n" + "a%s = {%s}\n" % (marker[2:6], p)
+            exp_s = [p]
+        out.append((t, chan, marker, exp_t, exp_s))
+    return out
+
+
+def c08(tier):
+    run = Run("C08", tier)
+    n = 1000 if tier == "quick" else 60000
+    run.rule = ("model: the escaping function of the character-data sinks leaves no markup-significant character "
+                "for any string over one representative per character class (TLC, MC_Sinks); code: %d payloads "
+                "(script, /style, a href, on*=, ]]>, comments, PIs, entities, quotes, CDATA, doctype) with unique "
+                "marker names in every channel (plain cells, quoted strings, {tags}, legend names, legend "
+                "declarations) combined with diagrams, every include_* combination; VocabularyOnly + "
+                "MarkerConfined evaluated by TLC on the parsed document. non-trivial = every event (each carries a payload)" % len(PAYLOADS))
+    r = common.rng("C08")
+    cfg = simple_cfg("MC_C08", {"L": 3, "Alphabet": tla_set([60, 62, 38, 39, 34, 93, 0, 1, 127, 65534, 97, 9])},
+                     ["NoRawMarkup", "RoundTrip"])
+    run.model("MC_Sinks", cfg)
+    cases = sink_cases(r, n)
+    reqs = []
+    for i, (t, chan, marker, _, _) in enumerate(cases):
+        if i % 4 == 0:
+            reqs.append({"input": t, "entry": "settings", "want_style": True,
+                         "settings": {"include_styles": r.random() < 0.5, "include_defs": r.random() < 0.5,
+                                      "include_backdrop": r.random() < 0.5}})
+        elif i % 4 == 1:
+            reqs.append({"input": t, "entry": "compressed", "want_style": True})
+        else:
+            reqs.append({"input": t, "want_style": True})
+    obs = observe.observe(reqs, tag="C08B")
+    for (t, chan, marker, _, _), rq, o in zip(cases, reqs, obs):
+        run.add_event({"props": ["C08"], "rows": o["rows"], "doc": o["doc"], "marker": [ord(c) for c in marker]},
+                      {"input": t, "channel": chan, "entry": rq.get("entry", "to_svg"), "settings": rq.get("settings")})
+    run.samples += [{"input": cases[2][0], "channel": cases[2][1]}, {"input": cases[4][0], "channel": cases[4][1]}]
+    run.validate(shard=800)
+    run.assumptions = std_assumptions() + ["expat is the conforming XML parser that decides well-formedness"]
+    return run.finish()
+
+
+def c02(tier):
+    run = Run("C02", tier, level="exploration")
+    run.rule = ("model: escape/decode round trip of the character-data sinks for every string of length <= 3 over "
+                "one representative per character class (TLC, MC_Sinks); code: Unicode sweep - scalar values in "
+                "rows of 48 per document, in each channel (plain text, quoted text, legend declarations), %s; plus "
+                "hostile strings; every include_* combination and pretty/compressed. TLC evaluates WellFormedDoc and "
+                "TextRoundTrip (each text element reads back the input cells from its anchor minus what XML cannot "
+                "represent; the probe strings carried by the event are found in the read-back text / style). "
+                "non-trivial = the event carries at least one probe string"
+                % ("all 1,112,064 scalar values" if tier == "thorough" else "a stratified 1/48 sample plus all of U+0000..U+02FF and the boundary values"))
+    r = common.rng("C02")
+    cfg = simple_cfg("MC_C02", {"L": 3, "Alphabet": tla_set([60, 62, 38, 39, 34, 93, 0, 1, 127, 65534, 97, 9])},
+                     ["NoRawMarkup", "RoundTrip"])
+    run.model("MC_Sinks", cfg)
+    scalars = [c for c in range(0x110000) if not (0xD800 <= c <= 0xDFFF)]
+    if tier == "quick":
+        keep = set(range(0x300)) | {0xFFFE, 0xFFFF, 0xFFFD, 0xD7FF, 0xE000, 0x10000, 0x10FFFF, 0x2028, 0x2029, 0x85, 0xFEFF}
+        scalars = [c for c in scalars if c in keep or r.random() < 1 / 48.0]
+    cases = []
+    for i in range(0, len(scalars), 48):
+        chunk = [c for c in scalars[i:i + 48] if c not in (10, 13)]
+        plain = "".join(chr(c) for c in chunk)
+        # plain channel: letters and arbitrary characters separated by blanks so that each is its own text run
+        cases.append(("x " + " ".join(chr(c) for c in chunk if c != 34), "plain",
+                      [[c] for c in chunk if c not in (34, 32, 9) and not chr(c).isspace() and chr(c) not in gen.FULL + "’"], []))
+        q = "".join(chr(c) for c in chunk if c not in (34, 92, 123, 125))
+        cases.append((' "' + q + '"', "quoted", [[ord(ch) for ch in q]], []))
+        d = "".join(chr(c) for c in chunk if c not in (123, 125))
+        cases.append(("a\n# Legend:\nk = {" + d + "}\n", "legend", [], [[ord(ch) for ch in d]]))
+    hostile = ["<", ">", "&", "'", "\"a\"", "]]>", "a&b<c>d", "&amp;", "&#0;", "<!--", "\x00\x01\x02", "\x7f\x80\x9f", "￾￿"]
+    for hst in hostile:
+        cases.append((hst, "plain", [], []))
+    reqs = []
+    combos = [(a, b, c) for a in (True, False) for b in (True, False) for c in (True, False)]
+    for i, (t, chan, _, _) in enumerate(cases):
+        m = i % 5
+        if m == 0:
+            reqs.append({"input": t, "want_style": True})
+        elif m == 1:
+            reqs.append({"input": t, "entry": "compressed", "want_style": True})
+        elif m == 2:
+            reqs.append({"input": t, "entry": "pretty", "want_style": True})
+        else:
+            a, b, c = combos[(i // 5) % 8]
+            st = {"include_styles": True if chan == "legend" else a, "include_defs": b, "include_backdrop": c}
+            reqs.append({"input": t, "entry": "settings", "settings": st, "want_style": True})
+    obs = observe.observe(reqs, tag="C02B")
+    for (t, chan, et, es), rq, o in zip(cases, reqs, obs):
+        run.add_event({"props": ["C02"], "rows": o["rows"], "doc": o["doc"], "expect_text": et, "expect_style": es},
+                      {"input": t, "channel": chan, "entry": rq.get("entry", "to_svg"), "settings": rq.get("settings")})
+    run.samples += [{"input": cases[0][0][:80], "channel": "plain"}, {"input": cases[1][0][:80], "channel": "quoted"}]
+    run.notes["scalars_swept"] = len(scalars)
+    run.validate(shard=600)
+    run.assumptions = std_assumptions() + ["expat is the conforming XML parser that decides well-formedness"]
+    return run.finish()
+
+
+PLANS.update({"C15": c15, "C08": c08, "C02": c02})
